@@ -83,7 +83,7 @@ func c10ContentLength(p *Prog, r *Result) {
 	}
 	isLen := func(m *Matcher, v ssa.Value) bool {
 		pv := m.Prov(v)
-		return pv.Has("field:net/http.Request.ContentLength") || pv.Has("field:net/http.Response.ContentLength")
+		return pv.HasX("field:net/http.Request.ContentLength") || pv.HasX("field:net/http.Response.ContentLength")
 	}
 	rs := &RuleSet{
 		Atoms: []AtomDef{
@@ -91,7 +91,13 @@ func c10ContentLength(p *Prog, r *Result) {
 				return pd.Kind == "lt" && holds && isConstInt(pd.X, 0) && isLimit(m, pd.Y)
 			}},
 			{Name: "limit-off", Edge: func(m *Matcher, pd Pred, holds bool) bool {
-				return pd.Kind == "lt" && !holds && isConstInt(pd.X, 0) && isLimit(m, pd.Y)
+				if pd.Kind == "lt" && !holds && isConstInt(pd.X, 0) && isLimit(m, pd.Y) { // !(0 < limit)
+					return true
+				}
+				if pd.Kind == "lt" && holds && isConstInt(pd.Y, 0) && isLimit(m, pd.X) { // limit < 0
+					return true
+				}
+				return pd.Kind == "le" && holds && isConstInt(pd.Y, 0) && isLimit(m, pd.X) // limit <= 0
 			}},
 			{Name: "len-le-max", Edge: func(m *Matcher, pd Pred, holds bool) bool {
 				return pd.Kind == "lt" && !holds && isLimit(m, pd.X) && isLen(m, pd.Y)
